@@ -27,8 +27,8 @@ def inverseOf (sch : Schema) (r : RelDef) : Option RelDef :=
   sch.find? (fun r' =>
     r'.src == r.dst && r'.dst == r.src &&
     (match r.kind, r'.kind with
-     | .toOne fk, .toMany cfk => fk == cfk
-     | .toMany cfk, .toOne fk => fk == cfk
+     | .toOne fk key, .toMany cfk key' => fk == cfk && key == key'
+     | .toMany cfk key', .toOne fk key => fk == cfk && key == key'
      | .m2m l s d, .m2m l' s' d' => l == l' && s == d' && d == s'
      | _, _ => false))
 
